@@ -112,7 +112,7 @@ def table(esz):
             post=[dict(name='size', then=['m_size_post == newend_idx'])])),
         (lambda f: base_name(f) == 'erase' and P(f) == ['this', 'first', 'last'], FnSpec(setup=own_iters(esz, 'first', 'last'),
             post=[dict(name='size', then=['m_size_post == m_size - (last_idx - first_idx)'])])),
-        ('at', FnSpec()),
+        ('at', FnSpec(post=[dict(name='index-at-or-beyond-size-throws', when=['num >= m_size'], then=[], noreturn=True)])),
         ('operator[]', FnSpec()),
         ('size', FnSpec(post=[dict(name='value', then=['ret == m_size'])])),
         ('capacity', FnSpec(post=[dict(name='value', then=['ret == m_capacity'])])),
